@@ -35,7 +35,9 @@ BUDGET = {'quick': 240, 'thorough': 1500}
 SIGS = [15, 2, 3, 10, 1]
 GTS = [0, .1, .25, .3, .7, 1.0, 2.0]
 CAUSES = ['stop', 'restart', 'decr', 'reload', 'reloadseq', 'reloadterm', 'kill', 'kill_pid', 'kill_over',
-          'max_age', 'rm', 'quit']
+          'max_age', 'rm', 'quit',
+          # a second termination arriving inside the grace period of a non-exclusive kill request
+          'kill_then_decr', 'kill_then_set0', 'kill_then_kill', 'kill_then_incr']
 KIDS = [[], [], [{'beh': {}}], [{'beh': {'*': ['ignore']}}], [{'beh': {}}, {'beh': {'*': ['ignore']}}],
         [{'beh': {'*': ['ignore']}, 'kids': [{'beh': {'*': ['ignore']}}]}]]
 
@@ -172,6 +174,18 @@ def _history(w, h, res):
         w.req('reload', name='a', graceful=False, waiting=True)
     elif cause in ('kill', 'kill_over'):
         w.req('kill', name='a', waiting=True, **h['over'])
+    elif cause.startswith('kill_then_'):
+        w.req('kill', name='a')
+        yield w.advance(min(0.05, gt / 2.0) if gt > 0 else 0)
+        second = cause[len('kill_then_'):]
+        if second == 'decr':
+            w.req('decr', name='a', nb=1, waiting=True)
+        elif second == 'set0':
+            w.req('set', name='a', options={'numprocesses': 0}, waiting=True)
+        elif second == 'kill':
+            w.req('kill', name='a', waiting=True)
+        elif second == 'incr':
+            w.req('incr', name='a', nb=1, waiting=True)
     elif cause == 'kill_pid':
         victims = [live0[0]]
         w.req('kill', name='a', pid=live0[0], waiting=True)
@@ -281,6 +295,8 @@ def starved(merged, tier):
     if o.get('children_judged', 0) < 20:
         out.append('stop_children clause judged on only %d children' % o.get('children_judged', 0))
     for c in CAUSES:
+        if c == 'kill_then_incr':
+            continue
         if not o.get('episodes:' + c):
             out.append('no episode for cause %s' % c)
     return out
